@@ -112,6 +112,7 @@ structure St where
   arrivals : List Nat := []               -- ghost: futures of queued calls in arrival order
   started : List Nat := []                -- ghost: futures in the order they were handed to the batch function
   batchLog : List (Nat × Nat) := []       -- ghost: (size, limit in force during assembly) of every batch started
+  doneAt : List (Nat × Nat × Nat) := []   -- ghost: (future, its key, virtual time at which it was answered)
   tie : Bool := false                     -- an input arrived at the very instant an internal event fired
   deriving Repr
 
@@ -182,7 +183,8 @@ def resolve (s : St) (f : Nat) (o : Outcome) : St :=
     waiting := s.waiting.filter (·.2 != f)
     outs := s.outs ++ woken.map (fun w => Out.done s.now w.1 o)
     retention := if s.ret > 0 then s.retention else eraseKey s.retention key
-    evict := if s.ret > 0 then s.evict ++ [(s.now + s.ret, key)] else s.evict }
+    evict := if s.ret > 0 then s.evict ++ [(s.now + s.ret, key)] else s.evict
+    doneAt := s.doneAt ++ [(f, key, s.now)] }
 
 def resolveAll (s : St) (fs : List Nat) (o : Outcome) : St := fs.foldl (fun s f => resolve s f o) s
 
@@ -328,6 +330,19 @@ def advance : Nat → Nat → Bool → St → St
       if when < t ∨ (¬ strict ∧ when = t) then advance fuel t strict (fire (fuel + 1) s when ev)
       else s
 
+/-- `advance` stopped because nothing was due any more (and not because its fuel ran out) -/
+def advanceDone : Nat → Nat → Bool → St → Bool
+  | 0, t, strict, s =>
+    match minEv (candidates s) with
+    | none => true
+    | some (when, _, _, _) => !(decide (when < t ∨ (¬ strict ∧ when = t)))
+  | fuel + 1, t, strict, s =>
+    match minEv (candidates s) with
+    | none => true
+    | some (when, _, _, ev) =>
+      if when < t ∨ (¬ strict ∧ when = t) then advanceDone fuel t strict (fire (fuel + 1) s when ev)
+      else true
+
 /-- An input at `t`: everything due before `t` happens first.  Something due exactly at `t`
 that was scheduled at an earlier instant is a *tie* between a timer and the input (not judged);
 zero-time consequences of earlier inputs of the same instant simply happen after the inputs. -/
@@ -375,6 +390,12 @@ def applyIn (s : St) (i : In) : St :=
     { s with maxb := n, asm := s.asm.map fun a => { a with bound := max a.bound n } }
 
 def horizon : Nat := 100000000
+
+/-- Every `advance` of the run of `ins` from `s` stopped because nothing was due any more, none because
+its fuel ran out (the theorems about *when* things happen assume this; the driver reports it). -/
+def programDone (s : St) : List In → Bool
+  | [] => advanceDone fuelDefault horizon false s
+  | i :: r => advanceDone fuelDefault i.time true s && programDone (applyIn s i) r
 
 /-- Run a whole program, then let everything drain. -/
 def runProgram (s : St) (ins : List In) : St :=
